@@ -84,7 +84,7 @@ Print Assumptions C01_compile_correct_Z.
 (* maps of the ring.                                                                            *)
 (* ====================================================================================== *)
 From CC Require Import Base.Scalar Base.Ty Base.Shape Graph.Value Graph.IR Graph.Eval Graph.Typing
-  Model.RingEval Model.MpcCompile Model.MpcCompileSem
+  Model.RingEval Model.MpcCompile Model.MpcCompilePlan Model.MpcCompileSem
   Proofs.MpcCompileBase Proofs.MpcCompileStatic Proofs.MpcCompileProofs Proofs.MpcCompileGadgets.
 
 (* Structure, for EVERY program of the mirrored fragment (all of mpc_mirrored), every privacy
@@ -135,6 +135,30 @@ Theorem C01_deep_compile_correct_partial :
     forall j vs, znth env_s j = Ok vs ->
       exists k vc, znth omap j = Ok k /\ znth env_c k = Ok vc /\ rel R radd (mem j priv) vs vc.
 Proof. exact compile_graph_correct. Qed.
+
+(* the same for EVERY resharing plan [resh] (any list of node ids the compiler does not reject): the
+   compiled function does not depend on the planner; [compile_graph_map] is [compile_graph_plan] at
+   the plan computed by get_nodes_to_reshare *)
+Theorem C01_deep_compile_correct_any_plan_partial :
+  forall (R : Type) (r0 r1 : R) (radd rmul rsub : R -> R -> R) (ropp : R -> R),
+  ring_theory r0 r1 radd rmul rsub ropp eq ->
+  forall (atom : Z -> R) (catom : value -> R) (one : R) (lin : op -> R -> R) (bil : op -> R -> R -> R) (nlin : op -> list R -> R),
+  (forall o a b, lin o (radd a b) = radd (lin o a) (lin o b)) ->
+  (forall o a a' b, bil o (radd a a') b = radd (bil o a b) (bil o a' b)) ->
+  (forall o a b b', bil o a (radd b b') = radd (bil o a b) (bil o a b')) ->
+  (forall o l l', length l = length l' -> nlin o (vadd R radd l l') = radd (nlin o l) (nlin o l')) ->
+  forall resh nodes output flags out oo omap priv use_mul,
+  compile_graph_plan resh nodes output flags = Ok (out, oo, omap) ->
+  propagate_private_annotations nodes flags = Ok (priv, use_mul) ->
+  thm_frag nodes = true ->
+  forall ins_s ins_c env_s kv0 kv1 kv2,
+  deval R r0 radd rmul rsub atom catom one lin bil nlin nodes ins_s = Some env_s ->
+  inrel R radd flags ins_s ins_c ->
+  exists env_c,
+    deval R r0 radd rmul rsub atom catom one lin bil nlin out (keys_input R use_mul kv0 kv1 kv2 ++ ins_c) = Some env_c /\
+    forall j vs, znth env_s j = Ok vs ->
+      exists k vc, znth omap j = Ok k /\ znth env_c k = Ok vc /\ rel R radd (mem j priv) vs vc.
+Proof. exact compile_graph_plan_correct. Qed.
 
 (* the statement about the output node: equal if public, three shares adding up to it if private *)
 Theorem C01_deep_output_correct_partial :
@@ -265,4 +289,5 @@ Qed.
 Print Assumptions C01_deep_structure.
 Print Assumptions C01_deep_compile_correct_partial.
 Print Assumptions C01_deep_output_correct_partial.
+Print Assumptions C01_deep_compile_correct_any_plan_partial.
 Print Assumptions C01_deep_gadget_bodies.
